@@ -610,6 +610,10 @@ func (x *Exec) evalMath(name string, args []Value, st *State, e *ast.CallExpr) (
 
 func (x *Exec) domainSafety(st *State, goal *Term, e ast.Node, what string) {
 	tags, on := x.safetyOn("div")
+	if !on {
+		// `safety domain`: the domain obligations (asin/acos/sqrt/log arguments) without the division obligations
+		tags, on = x.safetyOn("domain")
+	}
 	if !on || x.specDepth > 0 {
 		return
 	}
